@@ -213,6 +213,15 @@ def Layer.pack (l : Layer) (P : Tid) : Layer :=
   let txns' := packTxns l.txns P
   if recCount txns' = recCount l.txns then l else { l with txns := txns' }
 
+/-- `undoLog(0, n)`: the transactions that can still be undone, newest first (the search stops at the
+    first packed transaction) -/
+def Layer.undoLog (l : Layer) : List Tid :=
+  (l.txns.reverse.takeWhile fun t => !t.packed).map (·.tid)
+
+/-- `len(storage)`: the number of oids with a record -/
+def Layer.oidCount (l : Layer) : Nat :=
+  ((l.txns.flatMap fun t => t.recs.map (·.1)).eraseDups).length
+
 /-! ### the demo storage -/
 
 structure DState where
@@ -356,7 +365,7 @@ inductive Op where
   | abort (x : Nat)
   | undo (x : Nat) (u : Tid)
   | checkCurrent (x : Nat) (o : Oid) (serial : Tid)  -- checkCurrentSerialInTransaction (readCurrent)
-  | pack (P : Tid)
+  | pack (P : Tid) (gc : Option Bool)                 -- pack(t, referencesf, gc=None|False|True)
   | newOid (draws : List Oid)
   | push (firstDraw : Oid)
   | pushWith (canUndo : Bool) (firstDraw : Oid)      -- push(changes=<given storage>)
@@ -410,7 +419,7 @@ def step : Store → Op → Store × Out
      | .error e => (.leaf l, .err e))
   | .leaf l, .checkCurrent _ o ser =>
     (.leaf l, if l.staged.isNone then .err .txnError else checkCurrentOut ((Store.leaf l).getTid o) ser)
-  | .leaf l, .pack P => (.leaf (l.pack P), .ok)
+  | .leaf l, .pack P _ => (.leaf (l.pack P), .ok)             -- plain storages are packed with gc=False
   | .leaf l, .newOid _ => (.leaf l, .err .unsupported)       -- counters: see ZodbModel/Oid.lean
   | .leaf l, .pop => (.leaf l, .err .unsupported)
   | s, .push d => (newDemo s false true d, .ok)
@@ -455,8 +464,11 @@ def step : Store → Op → Store × Out
     -- `BaseStorage.checkCurrentSerialInTransaction`: the demo storage's OWN getTid, i.e. across the layers
     (.demo b c ds, if ds.txn ≠ some x then .err .txnError
                    else checkCurrentOut ((Store.demo b c ds).getTid o) ser)
-  | .demo b c ds, .pack P =>
-    if ds.tempChanges then (.demo b c ds, .err .unsupported)  -- gc pack of temporary changes: not modelled
+  | .demo b c ds, .pack P gc =>
+    -- gc=True: TypeError with explicit changes, the changes' own gc with implicit ones (not modelled);
+    -- gc=None on implicit changes is that gc pack too; everything else is `changes.pack(gc=False)`
+    if gc = some true then (.demo b c ds, .err .unsupported)
+    else if ds.tempChanges ∧ gc = none then (.demo b c ds, .err .unsupported)
     else (.demo b (c.pack P) ds, .ok)
   | .demo b c ds, .newOid draws =>
     (match drawLoop (freeOid b c ds) ds.next draws 0 with
